@@ -231,3 +231,211 @@ func runC09_8(c *core.Ctx) {
 		})
 	}
 }
+
+func init() {
+	register(&core.Rule{ID: "C09.9", Prop: "C09", MinSites: 12,
+		Desc: "cursor arithmetic has a meaning: every expression built only from rb.r, rb.w and rb.size is one of w-r (readable, under w > r), r-w (free, under w < r), size-r, size-w, size-r+w (readable, under w <= r), size-w+r (free, under w >= r), as a linear form, on a path where that region is established; anything else (w+r, size-r-w, …) is not a length of this ring",
+		Run: runC09_9})
+}
+
+func runC09_9(c *core.Ctx) {
+	a := ringAnchors(c)
+	if a == nil {
+		return
+	}
+	const (
+		fLIN    = 1 << iota // w > r
+		fLINEQ              // w >= r
+		fWRAP               // w < r
+		fWRAPEQ             // w <= r
+		fNE                 // w != r
+	)
+	for _, f := range a.funcs {
+		if f.Obj == a.grow {
+			continue // grow rebuilds the cursors, C09.1/C09.6
+		}
+		fieldKind := func(e ast.Expr) int {
+			switch flow.FieldOf(f.Info, e) {
+			case a.r:
+				return 1
+			case a.w:
+				return 2
+			case a.size:
+				return 3
+			}
+			return 0
+		}
+		g := f.Graph()
+		p := &flow.Problem{Must: true}
+		p.Node = func(b *flow.Block, i int, n ast.Node, in uint64) uint64 {
+			for _, l := range flow.Assigned(n) {
+				if k := fieldKind(l); k == 1 || k == 2 {
+					in = 0
+				}
+			}
+			for _, call := range flow.Calls(n) {
+				if flow.IsCall(f.Info, call, a.grow) || flow.IsCall(f.Info, call, a.reset) {
+					in = 0
+				}
+			}
+			return in
+		}
+		p.Edge = func(e *flow.Edge, in uint64) uint64 {
+			if e.Cond == nil || e.Tag != nil {
+				return in
+			}
+			x, y, op, ok := flow.Cmp(e.Cond)
+			if !ok {
+				return in
+			}
+			kx, ky := fieldKind(x), fieldKind(y)
+			if kx == 1 && ky == 2 { // r OP w  ==  w OP' r
+				kx, ky = ky, kx
+				switch op {
+				case token.LSS:
+					op = token.GTR
+				case token.LEQ:
+					op = token.GEQ
+				case token.GTR:
+					op = token.LSS
+				case token.GEQ:
+					op = token.LEQ
+				}
+			}
+			if kx != 2 || ky != 1 {
+				return in
+			}
+			t := e.Sense
+			switch op {
+			case token.GTR:
+				if t {
+					in |= fLIN | fLINEQ | fNE
+				} else {
+					in |= fWRAPEQ
+				}
+			case token.GEQ:
+				if t {
+					in |= fLINEQ
+				} else {
+					in |= fWRAP | fWRAPEQ | fNE
+				}
+			case token.LSS:
+				if t {
+					in |= fWRAP | fWRAPEQ | fNE
+				} else {
+					in |= fLINEQ
+				}
+			case token.LEQ:
+				if t {
+					in |= fWRAPEQ
+				} else {
+					in |= fLIN | fLINEQ | fNE
+				}
+			case token.EQL:
+				if t {
+					in |= fLINEQ | fWRAPEQ
+				} else {
+					in |= fNE
+				}
+			}
+			if in&fNE != 0 {
+				if in&fLINEQ != 0 {
+					in |= fLIN
+				}
+				if in&fWRAPEQ != 0 {
+					in |= fWRAP
+				}
+			}
+			return in
+		}
+		sol := g.Solve(p)
+		k := 0
+		sol.Walk(func(b *flow.Block, i int, n ast.Node, before uint64) {
+			// maximal additive expressions
+			var visit func(x ast.Node, parentAdditive bool)
+			check := func(e ast.Expr) {
+				var terms []struct {
+					e    ast.Expr
+					sign int
+				}
+				addTerms(e, 1, &terms)
+				cr, cw, cs, fields := 0, 0, 0, 0
+				for _, t := range terms {
+					switch fieldKind(t.e) {
+					case 1:
+						cr += t.sign
+						fields++
+					case 2:
+						cw += t.sign
+						fields++
+					case 3:
+						cs += t.sign
+						fields++
+					default:
+						if tv, ok := f.Info.Types[t.e]; ok && tv.Value != nil {
+							continue
+						}
+						return // mixed with other variables: not a pure cursor form
+					}
+				}
+				if fields < 2 {
+					return
+				}
+				k++
+				construct := "cursor form #" + itoa(k) + " " + exprStr(e)
+				need, name := uint64(0), ""
+				switch [3]int{cr, cw, cs} {
+				case [3]int{-1, 1, 0}:
+					need, name = fLIN, "w-r needs w > r"
+				case [3]int{1, -1, 0}:
+					need, name = fWRAP, "r-w needs w < r"
+				case [3]int{-1, 0, 1}, [3]int{0, -1, 1}:
+					c.Ok(f.Name, construct, e.Pos(), "distance to the physical end")
+					return
+				case [3]int{-1, 1, 1}:
+					need, name = fWRAPEQ, "size-r+w needs w <= r"
+				case [3]int{1, -1, 1}:
+					need, name = fLINEQ, "size-w+r needs w >= r"
+				default:
+					c.Violate(f.Name, construct, e.Pos(), exprStr(e)+" is not a length or distance of this ring (known forms: w-r, r-w, size-r, size-w, size-r+w, size-w+r): a sign was flipped or a cursor dropped")
+					return
+				}
+				c.Check(before&need != 0, f.Name, construct, e.Pos(), name+": established",
+					exprStr(e)+" is used where its region is not established ("+name+"): on the other side of the wrap it is negative or off by the capacity", sol.Witness(b, need)...)
+			}
+			visit = func(x ast.Node, parentAdditive bool) {
+				switch y := x.(type) {
+				case nil:
+					return
+				case *ast.FuncLit:
+					return
+				case *ast.ParenExpr:
+					visit(y.X, parentAdditive)
+					return
+				case *ast.BinaryExpr:
+					if y.Op == token.ADD || y.Op == token.SUB {
+						if !parentAdditive {
+							check(y)
+						}
+						visit(y.X, true)
+						visit(y.Y, true)
+						return
+					}
+				}
+				ast.Inspect(x, func(z ast.Node) bool {
+					if z == x {
+						return true
+					}
+					if z != nil {
+						if e, ok := z.(ast.Expr); ok {
+							visit(e, false)
+							return false
+						}
+					}
+					return true
+				})
+			}
+			visit(n, false)
+		})
+	}
+}
